@@ -370,3 +370,43 @@ func VxH03tag() {
 	// lines; what matters here is that the component did its work again: two lines)
 	vxAssert(len(vxFSLines("all.txt")) == 2 && !vxFSHasPartialLine("all.txt"), "C03.tag.component-output-complete")
 }
+
+// VxH03split: restart after a crash for a workflow with a FileSplitter (a component that
+// writes its outputs itself and skips its work when they exist).
+func VxH03split() {
+	vxCmdFree(false, false)
+	build := func() *scipipe.Workflow {
+		wf := scipipe.NewWorkflowCustomLogFile("w", 4, "log/w.log")
+		src := NewFileSource(wf, "src", "lines.txt")
+		sp := NewFileSplitter(wf, "split", 2)
+		sp.InFile().From(src.Out())
+		c := wf.NewProc("c", "vcmd r:{i:in} w:{o:out}")
+		c.SetOut("out", "{i:in}.c.txt")
+		c.In("in").From(sp.OutSplitFile())
+		return wf
+	}
+	vxFSPutLines("lines.txt", []string{"l1", "l2", "l3"})
+	vxKillAt(vxInt("k1", 0, vxGet("N")))
+	k1 := vxRun(func() { build().Run() })
+	vxAssume(k1 == "killed")
+	vxKillAt(-1)
+	vxFSRemoveTemp()
+	// KF-C03-3 (listed): once the first part exists the splitter skips its whole input and
+	// forwards nothing, so nothing downstream of it is ever produced by a re-run
+	firstPartThere := vxFSKind("lines.txt.split_1") == vxFile
+	k2 := vxRun(func() { build().Run() })
+	vxReach("reran")
+	vxAssert(k2 == "returned", "C03.split.restart-completes")
+	// what an uninterrupted run yields: both parts and the consumer's output for each
+	ok := true
+	for _, o := range []string{"lines.txt.split_1", "lines.txt.split_2", "lines.txt.split_1.c.txt", "lines.txt.split_2.c.txt"} {
+		if vxFSKind(o) != vxFile {
+			ok = false
+		}
+	}
+	if firstPartThere {
+		vxKnown(ok, "KF-C03-3")
+		return
+	}
+	vxAssert(ok, "C03.split.converges")
+}
